@@ -442,6 +442,46 @@ type simNetErr struct{ msg string }
 
 func (e *simNetErr) Error() string { return e.msg }
 
+func mergePatchNode(stored *v1.Node, patch []byte) (*v1.Node, error) {
+	var doc, p map[string]interface{}
+	raw, err := json.Marshal(stored)
+	if err != nil {
+		return nil, err
+	}
+	if err := json.Unmarshal(raw, &doc); err != nil {
+		return nil, err
+	}
+	if err := json.Unmarshal(patch, &p); err != nil {
+		return nil, err
+	}
+	var merge func(dst, src map[string]interface{})
+	merge = func(dst, src map[string]interface{}) {
+		for k, v := range src {
+			if v == nil {
+				delete(dst, k)
+				continue
+			}
+			if sm, ok := v.(map[string]interface{}); ok {
+				if dm, ok := dst[k].(map[string]interface{}); ok {
+					merge(dm, sm)
+					continue
+				}
+			}
+			dst[k] = v
+		}
+	}
+	merge(doc, p)
+	out, err := json.Marshal(doc)
+	if err != nil {
+		return nil, err
+	}
+	n := &v1.Node{}
+	if err := json.Unmarshal(out, n); err != nil {
+		return nil, err
+	}
+	return n, nil
+}
+
 func validateTaints(ts []v1.Taint) string {
 	seen := map[string]bool{}
 	for _, t := range ts {
@@ -480,6 +520,8 @@ func (k *Kube) serveNode(req *http.Request, name string, body []byte) (*http.Res
 		op = OpPut
 	case "DELETE":
 		op = OpDelete
+	case "PATCH":
+		op = OpPatch
 	default:
 		return statusResp(req, 405, metav1.StatusReasonMethodNotAllowed, "sim: method", 0), nil
 	}
@@ -493,6 +535,21 @@ func (k *Kube) serveNode(req *http.Request, name string, body []byte) (*http.Res
 		}
 		c.NodeBody = putNode.DeepCopy()
 		c.PrevGet = w.lastGet[name]
+	}
+	if op == OpPatch {
+		// JSON-merge semantics (objects merged, lists and scalars replaced). For a Node that is also what a
+		// strategic merge patch does to spec.taints, which is an atomic list without a merge key.
+		c.PrevGet = w.lastGet[name]
+		if stored, ok := k.nodes[name]; ok {
+			merged, err := mergePatchNode(stored, body)
+			if err != nil {
+				w.endCall(c, false, "bad patch")
+				return statusResp(req, 400, metav1.StatusReasonBadRequest, "sim: cannot apply patch: "+err.Error(), 0), nil
+			}
+			merged.ResourceVersion = "" // a patch carries no precondition unless it names one
+			putNode = merged
+			c.NodeBody = merged.DeepCopy()
+		}
 	}
 	fault := w.drawFault(c)
 	if stored, ok := k.nodes[name]; ok {
@@ -528,8 +585,8 @@ func (k *Kube) serveNode(req *http.Request, name string, body []byte) (*http.Res
 	case OpGet:
 		result = stored.DeepCopy()
 		c.GetBody = result.DeepCopy()
-	case OpPut:
-		if putNode.Name != name {
+	case OpPut, OpPatch:
+		if putNode == nil || putNode.Name != name {
 			return fail(400, metav1.StatusReasonBadRequest, "name mismatch", 0)
 		}
 		if putNode.ResourceVersion != "" && putNode.ResourceVersion != stored.ResourceVersion {
